@@ -215,3 +215,43 @@ Definition spec_events (lim : limiter) (ep : endpoint) : list xevent :=
        | LimiterOk => [XWait; XGet]
        | LimiterFails => [XWait]
        end.
+
+(* ---------- the same, in a world with redirects and cancellation ----------
+
+   What "exactly one GET" means when the configured http.Client follows redirects: the PACKAGE
+   issues one request, to the documented URL, after one Wait; if the server answers 3xx with a
+   Location and the client's policy follows it, net/http issues the further GETs the server
+   named (at most 10 requests in all) and the call's result is that of the final answer.  With
+   a policy that does not follow (or a 3xx without Location) the 3xx itself is the answer: an
+   unexpected status.  A context cancelled before the call sends nothing (a limiter, asked
+   first, refuses); one cancelled in flight has sent the one request; both are ordinary
+   errors. *)
+
+Definition permitted (w : world) (ep : endpoint) : bool :=
+  options_valid ep &&
+  match w_lim w with LimiterFails => false | _ => true end &&
+  match w_ctx w with CtxCancelledBefore => false | _ => true end.
+
+Definition waits (w : world) (ep : endpoint) : bool :=
+  options_valid ep && match w_lim w with NoLimiter => false | _ => true end.
+
+(* the Locations net/http goes on to request *)
+Definition spec_followed (w : world) : list str :=
+  match w_ctx w with
+  | CtxLive => if w_follow w then firstn 9 (w_hops w) else []
+  | _ => []
+  end.
+
+Definition spec_result_w (w : world) (ep : endpoint) : expected :=
+  match w_ctx w with
+  | CtxCancelledBefore | CtxCancelledDuring => XErr COther
+  | CtxLive =>
+      match w_hops w with
+      | [] => spec_result ep (w_resp w)
+      | _ :: _ =>
+          if w_follow w then
+            if Z.of_nat (List.length (w_hops w)) <=? 9 then spec_result ep (w_resp w)
+            else XErr COther
+          else XErr (status_class (w_hop_status w))
+      end
+  end.
